@@ -84,6 +84,18 @@ var c15Ops = []c15Op{
 	{"bad-op", func() interface{} {
 		return map[string]interface{}{"to": "captain", "update": map[string]interface{}{"m3": map[string]interface{}{"spec": map[string]interface{}{"inline": map[string]interface{}{"nodes": map[string]interface{}{"start": map[string]interface{}{"action": map[string]interface{}{"interpreter": "cobol", "source": "x"}}}}}}}}
 	}},
+	// one captain message with two updates, the later-sorting one of which cannot be carried out
+	{"state-m1-and-bad-m3", func() interface{} {
+		return map[string]interface{}{"to": "captain", "update": map[string]interface{}{
+			"m1": map[string]interface{}{"state": map[string]interface{}{"node": "start", "bs": map[string]interface{}{"count": 9.0}}},
+			"m3": map[string]interface{}{"spec": map[string]interface{}{"inline": map[string]interface{}{"nodes": map[string]interface{}{"start": map[string]interface{}{"action": map[string]interface{}{"interpreter": "cobol", "source": "x"}}}}}}}}
+	}},
+	// the same, addressed to m1 as well: m1 moves and is updated within one round
+	{"inc-m1-and-op-on-m1-and-bad-m3", func() interface{} {
+		return map[string]interface{}{"to": []interface{}{"m1", "captain"}, "inc": 1.0, "update": map[string]interface{}{
+			"m1": map[string]interface{}{"spec": map[string]interface{}{"inline": c15Spec("Y")}},
+			"m3": map[string]interface{}{"spec": map[string]interface{}{"inline": map[string]interface{}{"nodes": map[string]interface{}{"start": map[string]interface{}{"action": map[string]interface{}{"interpreter": "cobol", "source": "x"}}}}}}}}
+	}},
 	{"create-m1-X-with-state", upd("m1", "X", map[string]interface{}{"node": "start", "bs": map[string]interface{}{"count": 7.0}})},
 	// crash and restart at this message boundary: the crew is replaced by one rebuilt from the shadow store
 	{"restart", nil},
@@ -426,7 +438,7 @@ func stateKeyFull(c *Crew, s shadow) string {
 	return liveKey(c) + "#" + shadowKey(s) + "#" + cap + "#" + strings.Join(prev, ",")
 }
 
-var c15Conts = [][]string{{"inc-all"}, {"inc-m1"}, {"create-m2-Y"}, {"delete-m1"}, {"delete-m2"}, {"boss-delete-m2"}, {"boss-recreate-m1"}, {"spec-m1-Y"},
+var c15Conts = [][]string{{"inc-all"}, {"inc-m1"}, {"create-m2-Y"}, {"delete-m1"}, {"delete-m2"}, {"boss-delete-m2"}, {"boss-recreate-m1"}, {"spec-m1-Y"}, {"state-m1-and-bad-m3"}, {"inc-m1-and-op-on-m1-and-bad-m3"},
 	{"inc-all", "inc-all"}, {"create-m1-X", "inc-m1"}, {"state-m1", "inc-m1"}, {"delete-m1", "create-m1-X"}, {"delete-m1", "inc-all"}, {"create-m1-X-with-state", "inc-all"}}
 
 // c15Check evaluates invariant and differential for one history; returns violations.
@@ -507,7 +519,7 @@ func C15(c *vh.Ctx) {
 	}
 	depth := c.Pick(4, 5)
 	c.Bound("history_max", depth)
-	c.Rule(fmt.Sprintf("breadth-first search over histories of crew operations on a real sio.Crew (fresh crew + replay per successor; states deduplicated by live machines, captain state, shadow store and change cache): alphabet of %d operations (create m1/m2/boss with specs X/Y/Z, replace m1's state, replace m1's spec, delete m1, messages to all / to m1, a machine that deletes and re-creates m1 within one ProcessMsg, deletion of m2 by the host and by a machine, a captain operation that fails, and *restart*: the crew is replaced by one rebuilt from the shadow store, so every message boundary is a crash-and-restart point and the search goes on from the restarted crew), depth up to the bound. Invariant in every state: a store that folded every Result.Changed (as sio.Stdio does) equals the live crew (node, bindings, spec; deleted machines absent; a stored machine without state is start/{}). The same histories are also replayed with the repository's own consumer as the host - sio.Stdio folding Result.Changed into its state map and writing the state file after every message, restart = siostd's boot path reading that file back - and after every message the file must describe the live crew. Differential in every state: a crew rebuilt from that store through SetMachine (the siostd boot path) and the original give equal emissions, equal next states and equal stores (each crew's reported changes folded into its own copy of the store, which must also equal that crew) on %d continuations of length <= 2.", len(c15Ops), len(c15Conts)))
+	c.Rule(fmt.Sprintf("breadth-first search over histories of crew operations on a real sio.Crew (fresh crew + replay per successor; states deduplicated by live machines, captain state, shadow store and change cache): alphabet of %d operations (create m1/m2/boss with specs X/Y/Z, replace m1's state, replace m1's spec, delete m1, messages to all / to m1, a machine that deletes and re-creates m1 within one ProcessMsg, deletion of m2 by the host and by a machine, a captain operation that fails, captain messages with two updates of which the later one fails (also addressed to the machine the first one updates), and *restart*: the crew is replaced by one rebuilt from the shadow store, so every message boundary is a crash-and-restart point and the search goes on from the restarted crew), depth up to the bound. Invariant in every state: a store that folded every Result.Changed (as sio.Stdio does) equals the live crew (node, bindings, spec; deleted machines absent; a stored machine without state is start/{}). The same histories are also replayed with the repository's own consumer as the host - sio.Stdio folding Result.Changed into its state map and writing the state file after every message, restart = siostd's boot path reading that file back - and after every message the file must describe the live crew. Differential in every state: a crew rebuilt from that store through SetMachine (the siostd boot path) and the original give equal emissions, equal next states and equal stores (each crew's reported changes folded into its own copy of the store, which must also equal that crew) on %d continuations of length <= 2.", len(c15Ops), len(c15Conts)))
 	seen := map[string]bool{}
 	reported := map[string]bool{}
 	frontier := [][]string{{}}
